@@ -138,6 +138,7 @@ let parse_op (toks : string list) : op =
   | ["probe_types"; v; i] -> OProbeTypes (nat v, nn i)
   | ["down_wrong"; v; k; i] -> ODownWrong (nat v, parse_tkind k, nn i)
   | ["swap_wrong"; v; i] -> OSwapWrong (nat v, nn i)
+  | ["swap_wrong"; v; i; _] -> OSwapWrong (nat v, nn i)
   | ["write"; hk; v; i] -> OWrite (nn hk, nat v, nn i)
   | ["read"; hk; v; i] -> ORead (nn hk, nat v, nn i)
   | ["swap"; pr; v1; i; v2; j] -> OSwap (nn pr, nat v1, nn i, nat v2, nn j)
